@@ -287,6 +287,7 @@ fn run_prefix(c: &Case, p: usize, steps: &[usize], s: &mut Sched, st: &mut Stats
     let (obs, _term) = match outcome {
         Outcome::Done(o, t) => (o, t),
         Outcome::Premature(_) => return Err("harness: premature".into()),
+        Outcome::FollowedWithoutInheritedExpect => return Err("harness: outcome of a followed flow on a fresh one".into()),
     };
     check_against_truth(&spec, &obs, true, stream.len()).map_err(|e| what(e))?;
     if refused {
